@@ -22,8 +22,9 @@ VERIF = os.path.dirname(os.path.dirname(os.path.abspath(__file__)))
 
 def run_seed(d, props, out, jobs_per_check, tier):
     sid = os.path.basename(d.rstrip("/"))
-    wt = f"/tmp/seedwt/{sid}"
-    scratch = f"/tmp/seedwt/{sid}.out"
+    wt = f"/tmp/seedwt/{os.getpid()}/{sid}"
+    scratch = f"/tmp/seedwt/{os.getpid()}/{sid}.out"
+    os.makedirs(os.path.dirname(wt), exist_ok=True)
     subprocess.run(["git", "-C", "/repo", "worktree", "remove", "--force", wt], capture_output=True)
     shutil.rmtree(wt, ignore_errors=True)
     shutil.rmtree(scratch, ignore_errors=True)
